@@ -122,6 +122,14 @@ type Small struct {
 	W string
 }
 
+// Stamp is a third, tiny collection for times beyond the range of UnixNano
+// (the record type carries times as nanoseconds, which cannot express them).
+type Stamp struct {
+	sod.Item
+	At time.Time `sod:"index"`
+	N  int
+}
+
 // Other is a type that is never given a schema.
 type Other struct {
 	sod.Item
